@@ -1040,7 +1040,12 @@ impl Display for Token {
             Token::Instruction(i) => match &i.operand {
                 Some(o) => {
                     let suffix = match &o.suffix {
-                        Some(s) => format!("{}{}", s.comma, s.register.to_string().to_uppercase()),
+                        // (only the register is upper-cased, not the comments in front of it)
+                        Some(s) => format!(
+                            "{}{}",
+                            s.comma,
+                            s.register.map(|r| r.to_string().to_uppercase())
+                        ),
                         None => "".to_string(),
                     };
 
